@@ -337,17 +337,38 @@ func c06RunUdp(qc *c06QuicCase) (op, out string) {
 	if len(os_) > 0 {
 		orc = strings.Join(os_, ",")
 	}
+	// the sequence handed to the sniffer: nil = CompactPacketState
+	seq := qc.datagrams
+	if qc.compactAt > 0 && qc.compactAt <= len(qc.datagrams) {
+		seq = append(append(append([][]byte(nil), qc.datagrams[:qc.compactAt]...), nil), qc.datagrams...)
+	}
 	var ds []string
-	for _, d := range qc.datagrams {
-		ds = append(ds, c06Hex(d))
+	for _, d := range seq {
+		if d == nil {
+			ds = append(ds, "C")
+		} else {
+			ds = append(ds, c06Hex(d))
+		}
 	}
 	op = "udp " + orc + " " + strings.Join(ds, ",")
 	out = c06Guard(func() string {
 		s := NewPacketSniffer(nil, time.Hour)
 		defer s.Close()
 		var outs, diag []string
-		for _, d := range qc.datagrams {
-			s.AppendData(append([]byte(nil), d...))
+		var kept [][]byte
+		for _, d := range seq {
+			if d == nil {
+				s.CompactPacketState()
+				kept = nil
+				continue
+			}
+			kept = append(kept, d)
+			// the caller's buffer is recycled as soon as AppendData returns (pooled ingress buffers)
+			mine := append([]byte(nil), d...)
+			s.AppendData(mine)
+			for i := range mine {
+				mine[i] = 0xa5
+			}
 			name, err := s.SniffUdp()
 			nm := "0"
 			if s.NeedMore() {
@@ -358,16 +379,19 @@ func c06RunUdp(qc *c06QuicCase) (op, out string) {
 				if raw, rerr := extractSniFromTls(quicutils.NewLinearLocator(s.quicCryptos)); rerr == nil && c06NonASCII([]byte(raw)) {
 					res = "nonascii"
 				}
+				if c06NonASCII([]byte(name)) {
+					res = "nonascii"
+				}
 			}
 			outs = append(outs, fmt.Sprintf("%s/%s", res, nm))
 			diag = append(diag, fmt.Sprintf("%d/%d", s.quicNextRead, len(s.quicCryptos)))
 		}
 		intact := "1"
 		data := s.Data()
-		if len(data) != len(qc.datagrams)+1 || len(data[0]) != 0 {
+		if len(data) != len(kept)+1 || len(data[0]) != 0 {
 			intact = "0"
 		} else {
-			for i, d := range qc.datagrams {
+			for i, d := range kept {
 				if !bytes.Equal(data[i+1], d) {
 					intact = "0"
 				}
@@ -547,6 +571,24 @@ func TestVerifC06(t *testing.T) {
 			}
 			if got := c06Field(tout, "res"); got != want {
 				violation("HTTP head in one read: SniffTcp answered %s, the Host header says %s; head %q", got, want, b)
+			}
+		}
+		// the same head cut into two reads: the answer is the carried Host or "not found" (the
+		// head did not arrive in one read), never a different name
+		if exp != "?" {
+			cut := g.r.Intn(len(b) + 1)
+			if i := bytes.Index(bytes.ToLower(b), []byte("\r\nhost")); i >= 0 && g.r.Chance(0.7) {
+				j := bytes.Index(b[i+2:], []byte("\r\n"))
+				cut = i + 2 + g.r.Intn(j+3)
+			}
+			if cut > 0 && cut < len(b) {
+				cout := tcpOp(g.script([][]byte{b[:cut], b[cut:]}, "more"), c06Drains[g.r.Intn(len(c06Drains))], false)
+				g.stats.Inc("http.cut_in_two")
+				want := "ok:" + c06Hex([]byte(exp))
+				got := c06Field(cout, "res")
+				if got != want && got != "err:nf" && !(cut <= 12 && got == "err:na") {
+					violation("HTTP head cut at %d: SniffTcp answered %s, the Host header says %s; head %q", cut, got, want, b)
+				}
 			}
 		}
 		// cut / mutated heads: must not crash, must replay
@@ -773,6 +815,10 @@ func TestVerifC06(t *testing.T) {
 		if corrupt {
 			g.quicCorrupt(qc)
 		}
+		if g.r.Chance(0.15) { // the session is compacted in mid-flight and used again
+			qc.compactAt = g.r.Range(1, len(qc.datagrams))
+			qc.class = append(qc.class, "compacted_then_reused")
+		}
 		op, out := c06RunUdp(qc)
 		st.Emit(op, out)
 		for _, c := range qc.class {
@@ -780,7 +826,8 @@ func TestVerifC06(t *testing.T) {
 		}
 		g.stats.Inc(fmt.Sprintf("quic.datagrams.%d", len(qc.datagrams)))
 		if strings.HasPrefix(out, "crash:") || strings.HasPrefix(out, "err:oob") {
-			violation("panic in packet sniffer: %s", out)
+			violation("panic in packet sniffer: %s  op: %.300s", out, op)
+			continue
 		} else if c06Field(out, "intact") != "1" {
 			violation("datagrams kept by the packet sniffer differ from what was appended: %.300s", out)
 		}
